@@ -8,7 +8,7 @@ import (
 	g "verif/harness/g9alib"
 )
 
-func lit(n int64) g.Expr { return g.Lit{V: g.Int(n)} }
+func lit(n int64) g.Expr  { return g.Lit{V: g.Int(n)} }
 func col(n string) g.Expr { return g.Col{Name: n} }
 
 var cmps = []string{"<", "<=", ">", ">=", "<>", "="}
@@ -172,11 +172,11 @@ func genTable(rnd *rand.Rand) *table {
 // ---- statements ----
 
 type hist struct {
-	t      *table
-	st     *state
-	rnd    *rand.Rand
-	nck    int
-	noCk   bool // known finding: this table's CHECKs are not enforced by the engine (virtual column table)
+	t    *table
+	st   *state
+	rnd  *rand.Rand
+	nck  int
+	noCk bool // known finding: this table's CHECKs are not enforced by the engine (virtual column table)
 }
 
 func (h *hist) enforce() bool { return !h.noCk }
@@ -610,8 +610,24 @@ func (h *hist) genStmt() *stmt {
 				}
 			}
 		}
+		if h.rnd.Intn(100) < 15 {
+			// an explicit `g = DEFAULT` for a generated column (legal) ahead of a literal assignment to a base
+			// column: the generated column must still be recomputed from the row's final base values
+			var gens []string
+			for _, c := range h.t.cols {
+				if c.gen != nil {
+					gens = append(gens, c.name)
+				}
+			}
+			if b := h.genAssign(false); len(gens) > 0 && b.e != nil {
+				if _, isLit := b.e.(g.Lit); isLit && h.t.col(b.col).gen == nil {
+					s.sets = []assign{{col: gens[h.rnd.Intn(len(gens))]}, b}
+					s.genDefault = true
+				}
+			}
+		}
 		// prefer updates that the model accepts, most of the time
-		for try := 0; try < 4 && h.rnd.Intn(100) < 60; try++ {
+		for try := 0; try < 4 && !s.genDefault && h.rnd.Intn(100) < 60; try++ {
 			if _, err := h.t.apply(h.st, s, h.enforce()); err == nil {
 				break
 			}
